@@ -175,6 +175,8 @@ impl<'a> Gen<'a> {
         let mut opts: Vec<String> = vec![];
         for (n, ty) in &cx.vars {
             if ty == t { opts.push(if matches!(ty, Ty::Fn(..)) { format!("&{}", n) } else { n.clone() }); }
+            // a nilary function named as a term (also as a tuple / spread field) is called
+            if let Ty::Fn(a, r) = ty { if a.is_nil() && **r == *t && !self.rec_fns.contains(n) { opts.push(n.clone()); opts.push(n.clone()); } }
             if let Ty::Tup(_, fs) = ty { for (i, (l, ft)) in fs.iter().enumerate() { if ft == t && !matches!(ft, Ty::Fn(..)) { opts.push(match l { Some(l) => format!("{}.{}", n, l), None => format!("{}.{}", n, i) }); } } }
         }
         if cx.flow.as_ref() == Some(t) && !matches!(t, Ty::Fn(..)) { opts.push("~".into()); }
@@ -269,7 +271,10 @@ impl<'a> Gen<'a> {
                 let mut parts = vec![];
                 for (i, (l, _)) in fs.iter().enumerate() {
                     let ft = Ty::union(same_shape.iter().map(|o| match o { Ty::Tup(_, ofs) => ofs[i].1.clone(), _ => unreachable!() }).collect());
-                    let sub = if d == 0 { let nn = self.name(); binds.push((nn.clone(), ft)); nn } else { self.pattern(&ft, cx, d - 1, binds) };
+                    // a name already bound in this pattern, at the same type: an equality requirement between the two positions
+                    let again: Vec<String> = binds.iter().filter(|(_, bt)| *bt == ft && !matches!(bt, Ty::Union(_)) && !bt.has_fn()).map(|(n, _)| n.clone()).collect();
+                    let sub = if !again.is_empty() && self.rng.chance(1, 5) { self.feat("repeated_binder"); again[self.rng.below(again.len())].clone() }
+                        else if d == 0 { let nn = self.name(); binds.push((nn.clone(), ft)); nn } else { self.pattern(&ft, cx, d - 1, binds) };
                     parts.push(match l { Some(l) => format!("{}: {}", l, sub), None => sub });
                 }
                 format!("{}[{}]", n.clone().unwrap_or_default(), parts.join(", "))
@@ -286,6 +291,19 @@ impl<'a> Gen<'a> {
         for i in 0..n {
             self.fuel -= 1;
             let flow = cx2.flow.clone();
+            // a pattern that binds a name (through a star) and pins the variable of the same name already in scope
+            let outer: Vec<(String, Ty)> = cx2.vars.iter().filter(|(n, t)| FIELDS.contains(&n.as_str()) && !t.has_fn() && !matches!(t, Ty::Union(_))).cloned().collect();
+            if !outer.is_empty() && self.rng.chance(1, 4) {
+                self.feat("pin_of_a_name_the_pattern_rebinds");
+                let (on, ot) = outer[self.rng.below(outer.len())].clone();
+                let t1 = self.random_ty(1);
+                let inner_v = self.lit(&t1);
+                let other = if self.rng.chance(1, 2) { on.clone() } else { self.of(&ot, &cx2, 1) };
+                steps.push(format!("[A[{}: {}], {}] =[A*, &{}]", on, inner_v, other, on));
+                cx2.bind(&on, t1);
+                cx2.flow = Some(Ty::ok());
+                continue;
+            }
             match (self.rng.below(5), flow) {
                 (0..=2, Some(ft)) if i == 0 || !matches!(cx2.flow, Some(ref o) if *o == Ty::ok()) => {
                     // in-chain match on the flowing value
@@ -422,6 +440,22 @@ impl<'a> Gen<'a> {
         let mut steps: Vec<String> = vec![];
         let n = 1 + self.rng.below(4);
         for _ in 0..n {
+            if self.rng.chance(1, 10) {
+                let plain: Vec<(String, Ty)> = cx.vars.iter().filter(|(_, t)| !t.has_fn()).cloned().collect();
+                if !plain.is_empty() {
+                    // `a = u, b = ~`: the second step binds the Ok the first one evaluates to
+                    self.feat("bind_of_the_ok_threaded_out_of_a_binding");
+                    let (u, ut) = plain[self.rng.below(plain.len())].clone();
+                    let (a, b) = (self.name(), self.name());
+                    steps.push(format!("{} = {}", a, u)); steps.push(format!("{} = ~", b));
+                    cx.bind(&a, ut); cx.bind(&b, Ty::ok()); cx.flow = Some(Ty::ok());
+                    // and the aliased variable is used again inside a block, where a narrowing of it would show
+                    let t = self.random_ty(1); let w = self.name(); let c = self.name();
+                    let tail = self.of(&t, &cx, 1);
+                    steps.push(format!("{} = {{ {} = {}, {} }}", w, c, u, tail)); cx.bind(&w, t);
+                    continue;
+                }
+            }
             if self.rng.chance(1, 3) {
                 self.last_fn_recursive = false;
                 let (f, ft) = self.function(&cx, 2);
@@ -544,8 +578,8 @@ pub fn check(rep: &Report) {
     let mods = refsem::std_sources("/repo");
     let items: Vec<crate::corpus::Item> = crate::corpus::load("/repo").into_iter().filter(|i| i.origin.starts_with("tests/") || i.origin.starts_with("docs")).collect();
     rep.extra("corpus_programs", json!(items.len()));
-    let n_mut = if quick { 10_000 } else { 150_000 };
-    let n_gen = if quick { 50_000 } else { 1_000_000 };
+    let n_mut = if quick { 20_000 } else { 150_000 };
+    let n_gen = if quick { 250_000 } else { 1_500_000 };
     let total = items.len() + n_mut + n_gen;
     let findings = crate::report::load_findings();
     let _ = &findings;
